@@ -19,6 +19,10 @@ func init() {
 
 const c02Range = 1 << 30
 
+// c02NumRange is the numerator range used by c02Number; harnesses whose solver queries are nonlinear
+// (products of two symbolic numbers) lower it.
+var c02NumRange int64 = c02Range
+
 type c02Num struct {
 	v    Value
 	kind int // 0 finite k/4, 1 +inf, 2 -inf
@@ -36,8 +40,21 @@ func c02Number(tag string, allowInf bool) c02Num {
 	case 2:
 		return c02Num{NegativeInfinity, 2, 0}
 	}
-	k := vInt(tag, -c02Range, c02Range)
+	k := vInt(tag, -c02NumRange, c02NumRange)
 	return c02Num{NumberVal(vQuarterF(k)), 0, k}
+}
+
+// c02MenuNumber picks a concrete number from a small menu (finite quarters of either sign, zero, infinities).
+func c02MenuNumber(tag string) c02Num {
+	ks := []int64{-8, -1, 0, 1, 12}
+	n := vChoice(tag+"-menu", len(ks)+2)
+	if n == len(ks) {
+		return c02Num{PositiveInfinity, 1, 0}
+	}
+	if n == len(ks)+1 {
+		return c02Num{NegativeInfinity, 2, 0}
+	}
+	return c02Num{NumberVal(vQuarterF(ks[n])), 0, ks[n]}
 }
 
 // sign of the extended number: -1, 0, 1
@@ -48,17 +65,12 @@ func (n c02Num) sign() int {
 	case 2:
 		return -1
 	}
-	if n.k < 0 {
-		return -1
-	}
-	if n.k > 0 {
-		return 1
-	}
-	return 0
+	return int(vIte(n.k < 0, -1, vIte(n.k > 0, 1, 0)))
 }
 
-func c02Cmp(a, b c02Num) int {
-	av, bv := 0, 0
+// c02Cmp orders two extended numbers: negative, zero or positive (branch-free on the symbolic parts).
+func c02Cmp(a, b c02Num) int64 {
+	av, bv := int64(0), int64(0)
 	if a.kind == 1 {
 		av = 1
 	} else if a.kind == 2 {
@@ -70,21 +82,9 @@ func c02Cmp(a, b c02Num) int {
 		bv = -1
 	}
 	if av != 0 || bv != 0 {
-		if av < bv {
-			return -1
-		}
-		if av > bv {
-			return 1
-		}
-		return 0
+		return av - bv
 	}
-	if a.k < b.k {
-		return -1
-	}
-	if a.k > b.k {
-		return 1
-	}
-	return 0
+	return vIte(a.k < b.k, -1, vIte(a.k > b.k, 1, 0))
 }
 
 // c02IsNum: r is a known non-null number equal to num/den (den a power of two)
